@@ -7,7 +7,7 @@ From Onet Require Export Corr.C13.
 
 (* which variant of parseServiceConfig / parseServerServiceConfig the implementation
    is expected to be: flipped by the integrator when proposed_fixes/C18-F20.diff lands *)
-Definition code_fixed_F20 := false.
+Definition code_fixed_F20 := true.
 
 Definition case := @gcase18 lit.
 Definition agree (c : case) : bool := gagree18 unlit code_fixed_F20 c.
